@@ -27,6 +27,7 @@ Variable unescape_to_string : bytes -> bytes.
 Variable f64_from_str : bytes -> option fval.
 Variable b : bundle.
 Variable args : option fargs.
+Variable top : option pkey.       (* which pattern object of the bundle p is (None: not one of them) *)
 Variable p : pattern.
 Variable intls : intl_cache.
 
@@ -46,14 +47,14 @@ Notation write := (write_pattern overflow_checks call_function transform formatt
    OutOfFuel — for self-referential, cyclic and exponentially expanding bundles alike. *)
 Theorem C06_total :
   values_are_f64 ->
-  (exists text sc, format (fuel_of b p) p intls = Done (text, sc)) /\
-  (exists toks sc, write (fuel_of b p) p intls = Done (toks, sc)).
+  (exists text sc, format (fuel_of b p) top p intls = Done (text, sc)) /\
+  (exists toks sc, write (fuel_of b p) top p intls = Done (toks, sc)).
 Proof.
   intros (H1 & H2 & H3). split.
   - destruct (format_pattern_total overflow_checks call_function transform formatter rules custom_as_string
-                unescape_write unescape_to_string f64_from_str b args H1 H2 H3 p intls) as (t & sc & E & _); eauto.
+                unescape_write unescape_to_string f64_from_str b args H1 H2 H3 top p intls) as (t & sc & E & _); eauto.
   - destruct (write_pattern_total overflow_checks call_function transform formatter rules custom_as_string
-                unescape_write unescape_to_string f64_from_str b args H1 H2 H3 p intls) as (t & sc & E & _); eauto.
+                unescape_write unescape_to_string f64_from_str b args H1 H2 H3 top p intls) as (t & sc & E & _); eauto.
 Qed.
 
 (* "At most 100 placeables are resolved per call": the counter ends at most at MAX_PLACEABLES + 1
@@ -62,17 +63,17 @@ Qed.
 Theorem C06_budget :
   values_are_f64 ->
   (MAX_PLACEABLES + 1 < 2 ^ PLACEABLES_BITS)%N /\
-  (forall text sc, format (fuel_of b p) p intls = Done (text, sc) -> (sc_placeables sc <= MAX_PLACEABLES + 1)%N) /\
-  (forall toks sc, write (fuel_of b p) p intls = Done (toks, sc) -> (sc_placeables sc <= MAX_PLACEABLES + 1)%N).
+  (forall text sc, format (fuel_of b p) top p intls = Done (text, sc) -> (sc_placeables sc <= MAX_PLACEABLES + 1)%N) /\
+  (forall toks sc, write (fuel_of b p) top p intls = Done (toks, sc) -> (sc_placeables sc <= MAX_PLACEABLES + 1)%N).
 Proof.
   intros (H1 & H2 & H3). split; [apply max_placeables_fits|]. split.
   - intros text sc E.
     destruct (format_pattern_total overflow_checks call_function transform formatter rules custom_as_string
-                unescape_write unescape_to_string f64_from_str b args H1 H2 H3 p intls) as (t & sc' & E' & P).
+                unescape_write unescape_to_string f64_from_str b args H1 H2 H3 top p intls) as (t & sc' & E' & P).
     rewrite E in E'. injection E' as <- <-. eapply Post_new_budget, P.
   - intros toks sc E.
     destruct (write_pattern_total overflow_checks call_function transform formatter rules custom_as_string
-                unescape_write unescape_to_string f64_from_str b args H1 H2 H3 p intls) as (t & sc' & E' & P).
+                unescape_write unescape_to_string f64_from_str b args H1 H2 H3 top p intls) as (t & sc' & E' & P).
     rewrite E in E'. injection E' as <- <-. eapply Post_new_budget, P.
 Qed.
 
@@ -80,30 +81,30 @@ Qed.
    the dirty flag is set) TooManyPlaceables is in the error list. *)
 Theorem C06_limit_error :
   values_are_f64 ->
-  (forall text sc, format (fuel_of b p) p intls = Done (text, sc) ->
+  (forall text sc, format (fuel_of b p) top p intls = Done (text, sc) ->
      (sc_placeables sc = MAX_PLACEABLES + 1)%N \/ sc_dirty sc = true -> In TooManyPlaceables (sc_errors sc)) /\
-  (forall toks sc, write (fuel_of b p) p intls = Done (toks, sc) ->
+  (forall toks sc, write (fuel_of b p) top p intls = Done (toks, sc) ->
      (sc_placeables sc = MAX_PLACEABLES + 1)%N \/ sc_dirty sc = true -> In TooManyPlaceables (sc_errors sc)).
 Proof.
   intros (H1 & H2 & H3). split.
   - intros text sc E.
     destruct (format_pattern_total overflow_checks call_function transform formatter rules custom_as_string
-                unescape_write unescape_to_string f64_from_str b args H1 H2 H3 p intls) as (t & sc' & E' & P).
+                unescape_write unescape_to_string f64_from_str b args H1 H2 H3 top p intls) as (t & sc' & E' & P).
     rewrite E in E'. injection E' as <- <-. eapply Post_new_limit, P.
   - intros toks sc E.
     destruct (write_pattern_total overflow_checks call_function transform formatter rules custom_as_string
-                unescape_write unescape_to_string f64_from_str b args H1 H2 H3 p intls) as (t & sc' & E' & P).
+                unescape_write unescape_to_string f64_from_str b args H1 H2 H3 top p intls) as (t & sc' & E' & P).
     rewrite E in E'. injection E' as <- <-. eapply Post_new_limit, P.
 Qed.
 
 (* "… or meeting a cycle is reported as an error": Scope::track on a pattern that is already being
-   resolved (structurally equal to one on `travelled`) does not enter it; it prints the reference
+   resolved (the same object of the bundle, identified by its key, is on `travelled`) does not enter it; it prints the reference
    in braces and reports Cyclic.  (Errors are only ever appended: Ctl.ctl_errs.) *)
 Theorem C06_cycle_error :
-  forall fuel q exp sc,
-    pattern_mem q (sc_travelled sc) = true ->
+  forall fuel k q exp sc,
+    key_mem k (sc_travelled sc) = true ->
     track overflow_checks call_function transform formatter rules custom_as_string unescape_write
-      unescape_to_string f64_from_str b args (S fuel) q exp sc =
+      unescape_to_string f64_from_str b args (S fuel) k q exp sc =
     Done (braced (inline_write_error exp), add_error sc Cyclic).
 Proof. intros. now apply track_cyclic. Qed.
 
@@ -131,9 +132,9 @@ Definition ex_id (x : bytes) : bytes := x.
 Definition s (x : string) : bytes := bytes_of_string x.
 Definition ref (id : string) := PlaceableElement (Inline (MessageReference (s id) None)).
 Definition lit := PlaceableElement (Inline (StringLiteral (s "a"))).
-Definition ex_run (m : list (bytes * bentry)) (p : pattern) :=
+Definition ex_run (m : list (bytes * bentry)) (top : option pkey) (p : pattern) :=
   match format_pattern true ex_call None None ex_rules_one ex_id ex_id ex_id f64_from_str_exact (Bundle m false) None
-          (fuel_of (Bundle m false) p) p [] with
+          (fuel_of (Bundle m false) p) top p [] with
   | Done (t, sc) => Some (length t, sc_errors sc, sc_placeables sc, sc_dirty sc)
   | _ => None
   end.
@@ -145,26 +146,27 @@ Definition laughs : list (bytes * bentry) :=
    (s "lol2", EMessage (Some (Pattern (repeat (ref "lol1") 10))) []);
    (s "lol3", EMessage (Some (Pattern (repeat (ref "lol2") 10))) [])].
 Example C06_example_laughs :
-  ex_run laughs (Pattern (repeat (ref "lol2") 10)) = Some (276, [TooManyPlaceables], 101%N, true).
+  ex_run laughs (Some (PKey false (s "lol3") None)) (Pattern (repeat (ref "lol2") 10)) = Some (276, [TooManyPlaceables], 101%N, true).
 Proof. vm_compute. reflexivity. Qed.
 
 (* a = { b }, b = { a } *)
 Example C06_example_cycle :
   ex_run [(s "a", EMessage (Some (Pattern [ref "b"])) []); (s "b", EMessage (Some (Pattern [ref "a"])) [])]
+         (Some (PKey false (s "a") None))
          (Pattern [ref "b"]) = Some (3, [Cyclic], 2%N, false).
 Proof. vm_compute. reflexivity. Qed.
 
 (* D9 (fixed by 644bc0e): the limit trips inside `{ 1 -> [one] {m7} *[other] y }` and inside `{ { m7 } }` *)
 Definition m7 := [(s "m7", EMessage (Some (Pattern [lit; lit; lit])) [])].
 Example C06_example_limit_in_variant :
-  ex_run m7 (Pattern (repeat lit 99 ++
+  ex_run m7 None (Pattern (repeat lit 99 ++
                [PlaceableElement (Select (NumberLiteral (s "1"))
                   [Variant (KeyIdentifier (s "one")) (Pattern [ref "m7"]) false;
                    Variant (KeyIdentifier (s "other")) (Pattern [TextElement (s "y")]) true])]))
   = Some (102, [TooManyPlaceables], 101%N, true).
 Proof. vm_compute. reflexivity. Qed.
 Example C06_example_limit_in_nested_placeable :
-  ex_run m7 (Pattern (repeat lit 99 ++ [PlaceableElement (Inline (Placeable (Inline (Placeable (Inline (MessageReference (s "m7") None))))))]))
+  ex_run m7 None (Pattern (repeat lit 99 ++ [PlaceableElement (Inline (Placeable (Inline (Placeable (Inline (MessageReference (s "m7") None))))))]))
   = Some (103, [TooManyPlaceables], 101%N, true).
 Proof. vm_compute. reflexivity. Qed.
 
@@ -189,6 +191,7 @@ Variable unescape_to_string : bytes -> bytes.
 Variable f64_from_str : bytes -> option fval.
 Variable b : bundle.
 Variable args : option fargs.
+Variable top : option pkey.       (* which pattern object of the bundle p is (None: not one of them) *)
 Variable p : pattern.
 Variable intls : intl_cache.
 (* C = a bound on the number of elements of any pattern and on the number of function-call sites of
@@ -203,11 +206,11 @@ Hypothesis Hp : sz_pattern p <= C.
 Theorem C06_calls_bounded :
   (forall fuel text sc,
      format_pattern overflow_checks call_function transform formatter rules custom_as_string
-       unescape_write unescape_to_string f64_from_str b args fuel p intls = Done (text, sc) ->
+       unescape_write unescape_to_string f64_from_str b args fuel top p intls = Done (text, sc) ->
      length (sc_calls sc) <= (N.to_nat MAX_PLACEABLES + 1) * C) /\
   (forall fuel toks sc,
      write_pattern overflow_checks call_function transform formatter rules custom_as_string
-       unescape_write unescape_to_string f64_from_str b args fuel p intls = Done (toks, sc) ->
+       unescape_write unescape_to_string f64_from_str b args fuel top p intls = Done (toks, sc) ->
      length (sc_calls sc) <= (N.to_nat MAX_PLACEABLES + 1) * C).
 Proof.
   split.
@@ -226,7 +229,7 @@ Qed.
 Theorem C06_bounded_partial :
   forall fuel toks sc,
     write_pattern overflow_checks call_function transform formatter rules custom_as_string
-      unescape_write unescape_to_string f64_from_str b args fuel p intls = Done (toks, sc) ->
+      unescape_write unescape_to_string f64_from_str b args fuel top p intls = Done (toks, sc) ->
     length toks <= C + (N.to_nat MAX_PLACEABLES + 1) * (C + 8).
 Proof. intros fuel toks sc H. eapply write_pattern_bounds; eassumption. Qed.
 
@@ -241,7 +244,7 @@ Proof. intros fuel toks sc H. eapply write_pattern_bounds; eassumption. Qed.
 Theorem C06_bounded_bytes_partial :
   forall W fuel toks sc,
     write_pattern overflow_checks call_function transform formatter rules custom_as_string
-      unescape_write unescape_to_string f64_from_str b args fuel p intls = Done (toks, sc) ->
+      unescape_write unescape_to_string f64_from_str b args fuel top p intls = Done (toks, sc) ->
     Forall (fun t => length (token_bytes t) <= W) toks ->
     length (flatten toks) <= W * (C + (N.to_nat MAX_PLACEABLES + 1) * (C + 8)).
 Proof.
